@@ -35,9 +35,10 @@ Definition OP := OtherProperty.
 Definition audited : list audit := [
   (* ---------------------------------------------------------------- ast/ast.go (printer; also reached by Inspect of functions/quotes) *)
   A "ast" "ast.go" "IfExpression.printElse" "indexc" 2 FE "Statements[0] after len(Statements)==1 on the same && chain";
-  A "ast" "ast.go" "MapLiteral.PrettyPrint" "index" 1 FE "map lookup Pairs[key] for key in Order (parser and Modify keep them in sync)";
-  A "ast" "ast.go" "PrefixExpression.PrettyPrint" "index" 1 FE "out.last[len-1] after out.last != \"\"";
-  A "ast" "ast.go" "PrefixExpression.PrettyPrint" "indexc" 3 FE "lit[0] after lit != \"\" (short-circuit)";
+  A "ast" "ast.go" "MapLiteral.PrettyPrint" "index" 2 FE "map lookups: Pairs[key] for key in Order (parser and Modify keep them in sync), Precedences[COLON]";
+  A "ast" "ast.go" "PrefixExpression.PrettyPrint" "index" 1 FE "out.last[len-1] after out.last != """"";
+  A "ast" "ast.go" "PrefixExpression.PrettyPrint" "indexc" 3 FE "lit[0] after lit != """" (short-circuit)";
+  A "ast" "ast.go" "PrintState.Print" "indexc" 2 FE "s[0] after s != """" on the enclosing if";
   A "ast" "ast.go" "PrintState.Print" "repeat" 1 FE "strings.Repeat(tab, IndentLevel-1) only when IndentLevel > 1";
   A "ast" "ast.go" "PrintState.String" "assert" 1 FE "Out is the *strings.Builder installed by NewPrintState in every caller of String()";
   A "ast" "ast.go" "PrintState.needParen" "index" 1 FE "map lookup Precedences[type]";
@@ -61,10 +62,10 @@ Definition audited : list audit := [
   A "eval" "eval.go" "State.evalAssignment" "assert" 2 U "Left.(*Identifier) under Value().Type()==IDENT, Left.(*Register) under REGISTER: only those node types carry these token types";
   A "eval" "eval.go" "State.evalBuiltin" "assert" 1 U "val.(Error) after rt == ERROR";
   A "eval" "eval.go" "State.evalBuiltin" "indexc" 3 U "Parameters[0] after argCheck (min 1 argument unless println, which tests minV > 0)";
-  A "eval" "eval.go" "State.evalDelete" "assert" 2 U "node.(*IndexExpression) under token DOT / LBRACKET: only IndexExpression carries them as Value()";
+  A "eval" "eval.go" "State.evalDelete" "assert" 2 U "comma-ok since 9fa5a73 (del([1]) carried the [ token): no longer a site";
   A "eval" "eval.go" "State.evalExpressions" "assert" 1 U "evaluated.(Error) after Type()==ERROR";
   A "eval" "eval.go" "State.evalFloatInfixExpression" "div" 1 U "float64 division: no panic in Go (Inf/NaN)";
-  A "eval" "eval.go" "State.evalForExpression" "assert" 2 U "condition.(*Register)/(Integer) under the matching Type() case";
+  A "eval" "eval.go" "State.evalForExpression" "assert" 3 U "condition.(*Register)/(Integer) under the matching Type() case; nextEval.(ReturnValue) under Type()==RETURN";
   A "eval" "eval.go" "State.evalForInteger" "assert" 1 U "nextEval.(ReturnValue) under Type()==RETURN";
   A "eval" "eval.go" "State.evalForList" "assert" 1 U "nextEval.(ReturnValue) under Type()==RETURN";
   A "eval" "eval.go" "State.evalForSpecialForms" "assert" 4 U "Right.(*InfixExpression) under token COLON; v.(*Register)/(Integer) under the matching Type() case";
@@ -97,7 +98,7 @@ Definition audited : list audit := [
   A "eval" "macro_expension.go" "State.DefineMacros" "assert" 1 U "programNode.(*Statements): ParseProgram always returns *Statements";
   A "eval" "macro_expension.go" "State.DefineMacros" "index" 1 U "Statements[i] with i < len tested by the loop condition";
   A "eval" "macro_expension.go" "State.DefineMacros" "slice" 2 U "Statements[:i], [i+1:] with i < len";
-  A "eval" "macro_expension.go" "addMacro" "assert" 1 U "assign.Left.(*Identifier): the parser only accepts NAME = macro(..) with an identifier on the left? decided by the sweep (wild generator builds x[0]=macro, 1=macro forms)";
+  A "eval" "macro_expension.go" "addMacro" "assert" 1 U "assign.Left.(*Identifier): isMacroDefinition requires an *Identifier on the left since 76a124e";
   A "eval" "macro_expension.go" "extendMacroEnv" "index" 1 U "args[paramIdx] after len(args) == len(macro.Parameters) in ExpandMacros";
   A "eval" "memo.go" "Cache.Get" "index" 2 U "key.Args[i] after len(args) <= MaxArgs; map lookup with a key whose dynamic types passed object.Hashable";
   A "eval" "memo.go" "Cache.Set" "index" 2 U "as Cache.Get";
@@ -150,8 +151,9 @@ Definition audited : list audit := [
   A "object" "object.go" "Error.Inspect" "indexc" 1 U "Stack[0] after len(Stack) == 1";
   A "object" "object.go" "Extension.Usage" "index" 2 U "ArgTypes[i-1] for i <= MinArgs <= len(ArgTypes) (checked by CreateFunction); ArgTypes[MinArgs] after len > MinArgs";
   A "object" "object.go" "First" "indexc" 2 U "after len == 0 tests";
-  A "object" "object.go" "First" "slice" 1 U "[]rune(s)[:1] after s != \"\"";
+  A "object" "object.go" "First" "slice" 1 U "[]rune(s)[:1] after s != """"";
   A "object" "object.go" "Function.lambdaPrint" "indexc" 2 U "Statements[0] after len(Statements) != 1 short-circuit";
+  A "object" "object.go" "Hashable" "assert" 1 U "o.(Float) under case FLOAT";
   A "object" "object.go" "Hashable" "slice" 2 U "smallArr[:len], smallKV[:len] with len <= capacity by construction";
   A "object" "object.go" "MakePair" "indexc" 1 U "constant index into a fixed array";
   A "object" "object.go" "MakeQuad" "indexc" 2 U "constant index into a fixed array";
@@ -190,7 +192,7 @@ Definition audited : list audit := [
   A "object" "state.go" "Environment.BaseInfo" "make" 4 U "make with lengths of the token tables";
   A "object" "state.go" "Environment.Delete" "index" 1 U "map lookup";
   A "object" "state.go" "Environment.Get" "index" 1 U "map lookup";
-  A "object" "state.go" "Environment.Info" "index" 1 U "allKeys[e.depth-1] with allKeys = make(e.depth) and depth decreasing by one per outer step? decided by the sweep (info inside nested functions and lambdas)";
+  A "object" "state.go" "Environment.Info" "index" 1 U "allKeys[e.depth-1] with allKeys = make(depth of the starting env); NewFunctionEnvironment sets depth = outer.depth+1, so depths strictly decrease along outer";
   A "object" "state.go" "Environment.Info" "make" 2 U "make(depth), make(len(store))";
   A "object" "state.go" "Environment.IsRef" "index" 1 U "map lookup";
   A "object" "state.go" "Environment.MakeRegister" "index" 1 OP "registers[numReg] after HasRegisters(): C05";
@@ -201,7 +203,7 @@ Definition audited : list audit := [
   A "object" "state.go" "Environment.SaveGlobals" "make" 1 U "make(0, len(store))";
   A "object" "state.go" "Environment.SetNoChecks" "index" 2 U "map lookup / store";
   A "object" "state.go" "Environment.create" "index" 1 U "map store";
-  A "object" "state.go" "Environment.makeRef" "index" 2 U "map lookup / store";
+  A "object" "state.go" "Environment.makeRef" "index" 3 U "map lookups / store";
   A "object" "state.go" "Environment.update" "index" 1 U "map store";
   A "object" "type_string.go" "Type.String" "index" 2 U "stringer: guarded by i >= len(_Type_index)-1";
   A "object" "type_string.go" "Type.String" "slice" 1 U "stringer: offsets from the constant index table";
